@@ -313,6 +313,13 @@ func (t *Transaction) With(name string, readOnly bool, createFn func() (Cachable
 		// The following shared cache lock is released when the transaction is done.
 		verifYield("With.nObjLock")
 		s.mu.Lock()
+		if oldCache, ok := t.writtenCaches[name]; ok {
+			// The manager has dropped the entry of the cache this transaction wrote to
+			// earlier. Nobody can reach it through the manager anymore: it must not
+			// stay locked forever, and those still waiting for it must not reuse it.
+			oldCache.scrapped = true
+			oldCache.mu.Unlock()
+		}
 		verifYield("With.nRegister")
 		t.writtenCaches[name] = s
 		verifYield("With.nTxUnlock")
